@@ -167,6 +167,32 @@ class Ref:
                 val[outs[0]] = self.resize(k, val[ins[0]], ins[0], outs[0], o)
             elif k == "TRANSPOSE_CONV":
                 val[outs[0]] = self.tconv(val[ins[2]], ins, outs[0], o)
+            elif k in ("MEAN", "SOFTMAX"):
+                # approximated on the NPU (one step allowed): the real function of the dequantised input, requantised
+                if any(outs[0] in op2["inputs"] for op2 in self.sg["operators"]):
+                    raise Unsupported("%s feeding another operator" % k)
+                ty = self.tens(outs[0])["type"]
+                if ty not in ("int8", "uint8") or self.tens(ins[0])["type"] != ty:
+                    raise Unsupported("%s type %s" % (k, ty))
+                (si,), (zi,) = [x[:1] for x in self.quant(ins[0])]
+                (so,), (zo,) = [x[:1] for x in self.quant(outs[0])]
+                xr = (val[ins[0]].astype(np.float64) - float(zi)) * float(np.float32(si))
+                if k == "MEAN":
+                    axes = self.const(ins[1])
+                    if axes is None:
+                        raise Unsupported("dynamic axes")
+                    axes = tuple(int(a) % xr.ndim for a in np.asarray(axes).reshape(-1))
+                    yr = xr.mean(axis=axes, keepdims=bool(o.get("KeepDims", False)))
+                else:
+                    beta = o.get("Beta", 1.0)
+                    beta = float.fromhex(beta) if isinstance(beta, str) else float(beta)
+                    e = np.exp((xr - xr.max(axis=-1, keepdims=True)) * beta)
+                    yr = e / e.sum(axis=-1, keepdims=True)
+                q = yr / float(np.float32(so))
+                lo, hi = QRANGE[ty]
+                r_ = np.where(q >= 0, np.floor(q + 0.5), np.ceil(q - 0.5)).astype(np.int64) + int(zo)
+                self.has_table_op = True
+                val[outs[0]] = np.clip(r_, lo, hi).reshape(self.tens(outs[0])["shape"])
             elif k == "QUANTIZE":
                 # reference_ops::Requantize: MultiplyByQuantizedMultiplier(in - zp_in, QuantizeMultiplier(s_in / s_out)) + zp_out
                 ti, to = self.tens(ins[0])["type"], self.tens(outs[0])["type"]
